@@ -264,7 +264,19 @@ impl Snapshot {
         let mut s = Snapshot::default();
         let st = fstat(topfd).expect("fstat top");
         s.map.insert(B::new(""), entry_from(&st, None, None));
-        walk(topfd, &B::new(""), &mut s.map, 0);
+        walk(topfd, &B::new(""), &mut s.map, 0, None);
+        s
+    }
+    /// Like take_path, but file contents are only read below `full_under`;
+    /// elsewhere (size, mtime) stands in for the content hash.
+    pub fn take_path_light(top: &Path, full_under: &B) -> Snapshot {
+        let fd = openat_raw(libc::AT_FDCWD, top.as_os_str().as_encoded_bytes(), libc::O_RDONLY | libc::O_DIRECTORY | libc::O_NOFOLLOW, 0)
+            .unwrap_or_else(|e| panic!("snapshot open {:?}: {}", top, e));
+        let mut s = Snapshot::default();
+        let st = fstat(fd).expect("fstat top");
+        s.map.insert(B::new(""), entry_from(&st, None, None));
+        walk(fd, &B::new(""), &mut s.map, 0, Some(full_under));
+        close(fd);
         s
     }
     pub fn idents(&self) -> BTreeSet<Ident> {
@@ -319,7 +331,7 @@ fn entry_from(st: &St, body: Option<B>, chash: Option<u64>) -> Entry {
     }
 }
 
-fn walk(dirfd: i32, prefix: &B, out: &mut BTreeMap<B, Entry>, depth: usize) {
+fn walk(dirfd: i32, prefix: &B, out: &mut BTreeMap<B, Entry>, depth: usize, full_under: Option<&B>) {
     if depth > 3000 {
         return;
     }
@@ -340,7 +352,13 @@ fn walk(dirfd: i32, prefix: &B, out: &mut BTreeMap<B, Entry>, depth: usize) {
             }
             libc::S_IFREG => {
                 let mut chash = None;
-                if let Ok(fd) = openat_raw(dirfd, &name, libc::O_RDONLY | libc::O_NOFOLLOW | libc::O_NONBLOCK | libc::O_NOATIME, 0) {
+                let light = match full_under {
+                    Some(fu) => !under(&rel, fu),
+                    None => false,
+                };
+                if light {
+                    chash = Some(fnv(format!("{}:{}:{}", st.size, st.mtime_s, st.mtime_ns).as_bytes()));
+                } else if let Ok(fd) = openat_raw(dirfd, &name, libc::O_RDONLY | libc::O_NOFOLLOW | libc::O_NONBLOCK | libc::O_NOATIME, 0) {
                     let data = read_all(fd, 1 << 20);
                     chash = Some(fnv(&data));
                     close(fd);
@@ -353,7 +371,7 @@ fn walk(dirfd: i32, prefix: &B, out: &mut BTreeMap<B, Entry>, depth: usize) {
                     // do not cross mount points
                     if let Ok(st2) = fstat(fd) {
                         if st2.id.dev == st.id.dev {
-                            walk(fd, &rel, out, depth + 1);
+                            walk(fd, &rel, out, depth + 1, full_under);
                         }
                     }
                     close(fd);
